@@ -594,6 +594,30 @@ func c16UpdateStore(x *c16World, spec c16Spec, res *core.CaseResult) {
 	if r.OK() || len(chain.Diff(base, c.Dump(br))) != 0 {
 		res.Violate("C16/updatestore-partial", "two-entry MsgUpdateStore with a mismatching second entry: ok=%v diff=%d", r.OK(), len(chain.Diff(base, c.Dump(br))))
 	}
+	// the same key twice in one message: every entry is compared with the value the store has when that entry
+	// is applied (the first entry's result), not with the value before the message
+	{
+		k := hex.EncodeToString([]byte("\xEFverif-dup"))
+		stale := &fxgovtypes.MsgUpdateStore{Authority: chain.GovAuthority(), UpdateStores: []fxgovtypes.UpdateStore{
+			{Space: "erc20", Key: k, OldValue: "", Value: "02"},
+			{Space: "erc20", Key: k, OldValue: "", Value: "03"}}}
+		br := c.Branch()
+		r := c.MsgOn(br, stale)
+		res.Count("updatestore_duplicate_key_checks", 1)
+		if r.OK() || len(chain.Diff(base, c.Dump(br))) != 0 {
+			res.Violate("C16/updatestore-cas/duplicate-key", "MsgUpdateStore naming one key twice with the same (then stale) old value: ok=%v diff=%d", r.OK(), len(chain.Diff(base, c.Dump(br))))
+		}
+		chained := &fxgovtypes.MsgUpdateStore{Authority: chain.GovAuthority(), UpdateStores: []fxgovtypes.UpdateStore{
+			{Space: "erc20", Key: k, OldValue: "", Value: "02"},
+			{Space: "erc20", Key: k, OldValue: "02", Value: "03"}}}
+		br2 := c.Branch()
+		r2 := c.MsgOn(br2, chained)
+		d := chain.Diff(base, c.Dump(br2))
+		res.Count("updatestore_duplicate_key_checks", 1)
+		if !r2.OK() || len(d) != 1 || string(d[0].B) != "\x03" {
+			res.Violate("C16/updatestore-cas/chained-key", "MsgUpdateStore updating one key twice, each entry naming the value the previous one wrote: ok=%v (%s) diff=%d", r2.OK(), short(r2.ErrString()), len(d))
+		}
+	}
 	res.Count("positive_controls_ok", 1)
 	res.Nontrivial = true
 	res.Sig = fmt.Sprintf("updatestore%d", spec.Shard)
